@@ -20,12 +20,17 @@ class _Rec:
         self.entry = {}        # id(frame) -> dict name -> value at entry
         self.frames = []       # keep frames alive so ids are never reused
         self.funcs = {}        # code -> function object (ground truth of attribution)
-    def reg(self, fn):
+        self.unresolvable = set()   # codes whose function the program itself made unreachable by name
+    def reg(self, fn, resolvable=True):
+        """ground truth of attribution.  resolvable=False: the program has made the function unreachable by name (its
+        global was rebound), so the property does not speak about its calls"""
         f = fn
         seen = 0
         while hasattr(f, "__wrapped__") and seen < 5:
             f = f.__wrapped__; seen += 1
         self.funcs[(f.__code__.co_filename, f.__code__)] = f      # code objects compare by content, not by file
+        if not resolvable:
+            self.unresolvable.add((f.__code__.co_filename, f.__code__))
         return fn
     def enter(self, names):
         fr = sys._getframe(1)
@@ -241,6 +246,9 @@ class ProgGen:
             self.w("        R.act('return', _v)")
             self.w("        return _v")
             self.w("    R.funcs[(wrapper.__code__.co_filename, wrapper.__code__)] = wrapper")
+            # the wrapper closure itself carries no name a lookup could use (its code is called `wrapper`, the global is
+            # named after the wrapped function): only the wrapped function is resolvable, through __wrapped__
+            self.w("    R.unresolvable.add((wrapper.__code__.co_filename, wrapper.__code__))")
             self.w("    return wrapper")
             calls = self.def_plain("wrapped", deco="@deco")
             self.w("R.reg(wrapped)")
@@ -352,7 +360,7 @@ class ProgGen:
             self.w("    R.enter(['a'])")
             self.w("    R.act('return', 1)")
             self.w("    return 1")
-            self.w("R.reg(variant)")
+            self.w("R.reg(variant, resolvable=False)")     # its global name is rebound below
             self.w("variant_old = variant")
             self.w("def variant(a, b=None):")
             self.w("    R.enter(['a', 'b'])")
